@@ -20,6 +20,12 @@ class InjectedFault(Exception):
   pass
 
 
+import struct as _struct
+EXC['struct.error'] = _struct.error          # what whisper raises for a timestamp that does not fit its 32-bit field
+EXC['OverflowError'] = OverflowError
+STRICT_TS = [False]    # when set, write() refuses a batch holding a timestamp outside [0, 2**32) the way whisper's update_many does
+
+
 def _errno_fault(code):
   # what the operating system really reports: an OSError carrying an errno (interrupted call, try again, disk full, I/O error,
   # read-only file system, too many open files, permission denied)
@@ -42,6 +48,7 @@ def reset():
   FAULT_PLAN.clear()
   FAULT_OPS.clear()
   FAULT_METRICS.clear()
+  STRICT_TS[0] = False
 
 
 def _log(op, metric, args):
@@ -95,6 +102,9 @@ def register_plugin():
       pts = list(datapoints)
       ent = _log('write', metric, pts)
       self._maybe_fault(ent)
+      if STRICT_TS[0] and any(not (0 <= t < 2 ** 32) for t, _ in pts):
+        ent['outcome'] = 'raise:struct.error'
+        raise _struct.error("'L' format requires 0 <= number <= 4294967295")
       if metric not in self.files:
         ent['outcome'] = 'raise:nofile'
         raise IOError('no such file for %s' % metric)
